@@ -3,7 +3,7 @@
 import json, os, re, glob
 V = "/verif"
 confirm = {}
-for f in glob.glob("/tmp/wt/confirm*.log"):
+for f in glob.glob("/verif/seeded/_confirm/confirm*.log"):
     for l in open(f):
         m = re.match(r"(C\d+) (m\d): suite\(pass/fail\)=(\S+) demo_with_mutation_rc=(\S+) demo_without_rc=(\S+)", l)
         if m:
@@ -17,10 +17,13 @@ if os.path.exists(V + "/work/sweep.log"):
         if len(p) >= 2 and p[0].startswith("C"):
             sweep[p[0]] = {"result": p[1], "first_violation": p[2].strip() if len(p) > 2 else ""}
 NOTES = json.load(open(V + "/lib/seeded_notes.json")) if os.path.exists(V + "/lib/seeded_notes.json") else {}
-for d in sorted(glob.glob(V + "/seeded/*/")):
+for d in sorted(glob.glob(V + "/seeded/C*/")):
     n = os.path.basename(d.rstrip("/"))
     prop = n.split("-")[0]
     am = {}
+    if os.path.exists(d + "meta.json") and not os.path.exists(d + "agent_meta.json"):
+        old = json.load(open(d + "meta.json"))
+        am = {"summary": old.get("summary", ""), "needs": old.get("needs_to_manifest", ""), "files": old.get("files", [])}
     if os.path.exists(d + "agent_meta.json"):
         try:
             am = json.load(open(d + "agent_meta.json"))
@@ -30,7 +33,7 @@ for d in sorted(glob.glob(V + "/seeded/*/")):
     meta = {
         "id": n,
         "property": prop,
-        "source": NOTES.get(n, {}).get("source", "fresh sub-agent given only the property text and a scratch worktree (/tmp/wt/%s)" % prop),
+        "source": NOTES.get(n, {}).get("source", "fresh sub-agent given only the property text%s and a scratch worktree" % (" (plus one-line summaries of the two changes already known, so that it would pick other sites)" if n.endswith(("m3", "m4")) else "")),
         "summary": am.get("summary", NOTES.get(n, {}).get("summary", "")),
         "needs_to_manifest": am.get("needs", NOTES.get(n, {}).get("needs", "")),
         "files": am.get("files", []),
